@@ -312,7 +312,7 @@ class XMIResource(Resource):
                     if not value:  # BA: Skip empty references
                         continue
                     resolved_value = self._resolve_nonhref(value)
-                    if not resolved_value:
+                    if resolved_value is None:
                         raise ValueError(f'EObject for {value} is unknown')
                     if not hasattr(resolved_value, '_inverse_rels'):
                         resolved_value = resolved_value.eClass
